@@ -189,18 +189,28 @@ Proof.
   rewrite orb_true_iff, IH, str_eqb_eq. split; intros [H|H]; auto.
 Qed.
 
+Lemma chain_eqb_eq (a b : chain) : list_eqb str_eqb a b = true <-> a = b.
+Proof. apply list_eqb_eq. exact str_eqb_eq. Qed.
+
+Lemma chain_in_In ch c : existsb (list_eqb str_eqb ch) c = true <-> In ch c.
+Proof.
+  rewrite existsb_exists. split.
+  - intros (x & Hin & E). apply chain_eqb_eq in E. now subst.
+  - intros H. exists ch. split; [exact H|now apply chain_eqb_eq].
+Qed.
+
 Definition keep (ch : chain) : bool := negb (str_in (last_of ch) INTRINSICS).
 
 Lemma append_calls_app c a b : append_calls c (a ++ b) = append_calls (append_calls c a) b.
 Proof.
   revert c. induction a as [|x a IH]; intros c; [reflexivity|]. cbn [app append_calls].
-  destruct (str_in (last_of x) INTRINSICS || str_in (last_of x) (map last_of c)); apply IH.
+  destruct (str_in (last_of x) INTRINSICS || existsb (list_eqb str_eqb x) c); apply IH.
 Qed.
 
 Lemma append_calls_old c new ch : In ch c -> In ch (append_calls c new).
 Proof.
   revert c. induction new as [|x new IH]; intros c H; [exact H|]. cbn [append_calls].
-  destruct (str_in (last_of x) INTRINSICS || str_in (last_of x) (map last_of c)); apply IH; [exact H|].
+  destruct (str_in (last_of x) INTRINSICS || existsb (list_eqb str_eqb x) c); apply IH; [exact H|].
   apply in_or_app. now left.
 Qed.
 
@@ -209,28 +219,28 @@ Proof.
   revert c. induction new as [|x new IH]; intros c H; [now left|]. cbn [append_calls] in H.
   destruct (str_in (last_of x) INTRINSICS) eqn:Ei; cbn [orb] in H.
   - destruct (IH c H) as [H1|[H1 H2]]; [now left|right; split; [now right|exact H2]].
-  - destruct (str_in (last_of x) (map last_of c)).
+  - destruct (existsb (list_eqb str_eqb x) c).
     + destruct (IH c H) as [H1|[H1 H2]]; [now left|right; split; [now right|exact H2]].
     + destruct (IH _ H) as [H1|[H1 H2]].
       * apply in_app_iff in H1 as [H1|[<-|[]]]; [now left|]. right. split; [now left|]. unfold keep. now rewrite Ei.
       * right. split; [now right|exact H2].
 Qed.
 
-Lemma append_calls_cover c new ch : In ch new -> keep ch = true ->
-  exists ch', In ch' (append_calls c new) /\ last_of ch' = last_of ch.
+(* every chain that does not end in an INTRINSICS entry is kept (once) *)
+Lemma append_calls_cover c new ch : In ch new -> keep ch = true -> In ch (append_calls c new).
 Proof.
   revert c. induction new as [|x new IH]; intros c H Hk; [contradiction|]. cbn [append_calls].
   destruct H as [->|H].
   - unfold keep in Hk. apply negb_true_iff in Hk. rewrite Hk. cbn [orb].
-    destruct (str_in (last_of ch) (map last_of c)) eqn:Ec.
-    + apply str_in_In, in_map_iff in Ec as (ch' & El & Hin). exists ch'. split; [now apply append_calls_old|exact El].
-    + exists ch. split; [|reflexivity]. apply append_calls_old, in_or_app. right. now left.
-  - destruct (str_in (last_of x) INTRINSICS || str_in (last_of x) (map last_of c)); now apply IH.
+    destruct (existsb (list_eqb str_eqb ch) c) eqn:Ec.
+    + apply append_calls_old. now apply chain_in_In.
+    + apply append_calls_old, in_or_app. right. now left.
+  - destruct (str_in (last_of x) INTRINSICS || existsb (list_eqb str_eqb x) c); now apply IH.
 Qed.
 
-(* each entry of unit.calls has its own last component, none of them in INTRINSICS *)
+(* no chain twice in unit.calls, none ending in an entry of INTRINSICS *)
 Definition calls_inv (c : list chain) : Prop :=
-  NoDup (map last_of c) /\ forall ch, In ch c -> keep ch = true.
+  NoDup c /\ forall ch, In ch c -> keep ch = true.
 
 Lemma nodup_snoc {A} (l : list A) x : NoDup l -> ~ In x l -> NoDup (l ++ [x]).
 Proof.
@@ -244,10 +254,9 @@ Lemma append_calls_inv c new : calls_inv c -> calls_inv (append_calls c new).
 Proof.
   revert c. induction new as [|x new IH]; intros c Hc; [exact Hc|]. cbn [append_calls].
   destruct (str_in (last_of x) INTRINSICS) eqn:Ei; cbn [orb]; [now apply IH|].
-  destruct (str_in (last_of x) (map last_of c)) eqn:Ec; [now apply IH|].
+  destruct (existsb (list_eqb str_eqb x) c) eqn:Ec; [now apply IH|].
   apply IH. destruct Hc as [Hn Hk]. split.
-  - rewrite map_app. cbn [map]. apply nodup_snoc; [exact Hn|].
-    intros Hin. apply str_in_In in Hin. congruence.
+  - apply nodup_snoc; [exact Hn|]. intros Hin. apply chain_in_In in Hin. congruence.
   - intros ch Hin. apply in_app_iff in Hin as [Hin|[<-|[]]]; [now apply Hk|]. unfold keep. now rewrite Ei.
 Qed.
 
@@ -264,38 +273,46 @@ Proof.
   unfold stmt_step. destruct (line_step st (mask_quotes x)); [apply IH|reflexivity].
 Qed.
 
-
-
-
-
-Lemma subst_head_nil ch : subst_head [] ch = ch.
+Lemma subst_head_nil ch : subst_head [] ch = Some ch.
 Proof. destruct ch; reflexivity. Qed.
 
 Lemma raw_calls_nil line : raw_calls [] line = map norm_chain (chain_texts line).
-Proof. unfold raw_calls. apply map_ext. intros t. apply subst_head_nil. Qed.
+Proof.
+  unfold raw_calls. induction (chain_texts line) as [|x l IH]; [reflexivity|].
+  cbn [flat_map map]. now rewrite subst_head_nil, IH.
+Qed.
 
 Lemma line_step_stmt st calls : wf_stmt st = true -> plain_ok st = true -> step_ok st = true ->
   line_step ([], calls) (render_stmt st) = Some ([], append_calls calls (unit_chains st)).
 Proof.
   intros Hwf Hplain Hstep. unfold unit_chains.
-  assert (Hskip : forall line, cascade_skips line = true -> line_step ([], calls) line = Some ([], calls)).
-  { intros line H. unfold cascade_skips in H. unfold line_step. destruct (format_re line); [reflexivity|].
-    cbn [orb] in H. apply andb_true_iff in H as [H H3]. apply andb_true_iff in H as [H1 H2].
-    apply negb_true_iff in H1. rewrite H1. destruct (associate_re line); [discriminate|]. now rewrite H3. }
   assert (Hseg : seg_stmt st = true -> cascade_ok (render_stmt st) && (call_gate (render_stmt st) || is_nil (stmt_chains st)) = true ->
                  line_step ([], calls) (render_stmt st) = Some ([], append_calls calls (stmt_chains st))).
   { intros Hs H. apply andb_true_iff in H as [Hc Hg]. unfold cascade_ok in Hc.
     apply andb_true_iff in Hc as [Hc H4]. apply andb_true_iff in Hc as [Hc H3]. apply andb_true_iff in Hc as [H1 H2].
-    apply negb_true_iff in H1, H2, H4. unfold line_step. rewrite H1, H2.
-    destruct (associate_re (render_stmt st)); [discriminate|]. rewrite H4.
+    apply negb_true_iff in H1, H2. unfold line_step. rewrite H1, H2.
+    destruct (associate_re (render_stmt st)); [discriminate|].
+    destruct (goto_rewrite false [] (render_stmt st)); [discriminate|].
     pose proof (raw_stmt st Hs Hwf Hplain) as Hraw.
     destruct (call_gate (render_stmt st)).
     - unfold add_calls. now rewrite raw_calls_nil, Hraw.
     - cbn [orb] in Hg. destruct (stmt_chains st); [reflexivity|discriminate]. }
   destruct st as [lab sp f|lab d|lab sp c d|sp pairs| |lab sp body|labels e]; cbn [seg_stmt step_ok] in *;
-    try discriminate; try (apply Hseg; [reflexivity|exact Hstep]); cbn [append_calls]; now apply Hskip.
+    try discriminate; try (apply Hseg; [reflexivity|exact Hstep]).
+  - (* FORMAT *) cbn [append_calls]. unfold line_step. now rewrite Hstep.
+  - (* computed GO TO *)
+    apply andb_true_iff in Hstep as [Hc Hg]. apply andb_true_iff in Hc as [Hc H3]. apply andb_true_iff in Hc as [H1 H2].
+    apply negb_true_iff in H1, H2. unfold line_step. rewrite H1, H2.
+    destruct (associate_re (render_stmt (SGoto labels e))); [discriminate|].
+    destruct (goto_rewrite false [] (render_stmt (SGoto labels e))) as [line'|]; [|discriminate].
+    apply andb_true_iff in Hg as [He Hg]. apply str_eqb_eq in He. subst line'.
+    cbn [wf_stmt] in Hwf. apply andb_true_iff in Hwf as [_ Hsegs].
+    pose proof (raw_goto e Hsegs) as Hraw.
+    destruct (call_gate (render_segs (goto_segs e))).
+    + unfold add_calls. rewrite raw_calls_nil, Hraw. reflexivity.
+    + cbn [orb] in Hg. unfold stmt_chains in Hg |- *.
+      destruct (flat_map seg_heads0 (goto_segs e) ++ _); [reflexivity|discriminate].
 Qed.
-
 
 Lemma run_unit ss : forall calls,
   forallb wf_stmt ss = true -> forallb plain_ok ss = true -> forallb step_ok ss = true ->
@@ -307,9 +324,7 @@ Proof.
   rewrite (line_step_stmt st calls Hw Hp1 Hs1). rewrite (IH _ Hwf Hp Hs). now rewrite append_calls_app.
 Qed.
 
-
-
-
+(* ------------------------------------------------------------------ resolution *)
 Lemma labels_get_absent k l found : str_in k (map fst l) = false -> labels_get k l found = found.
 Proof.
   revert found. induction l as [|[k' v] l IH]; intros found H; [reflexivity|]. cbn [map fst str_in] in H.
@@ -331,11 +346,11 @@ Proof.
   - intros H. right. now apply IH.
 Qed.
 
-Definition fres_den (r : fres) : option den :=
-  match r with FFound e => Some (ent_den e) | FNone => Some DUnknown | FCrash => None end.
+Definition found_den (r : option entity) : den :=
+  match r with Some e => ent_den e | None => DUnknown end.
 
 Lemma find_denote tb : tb_ok tb = true -> forall ch ctx, labels_ok ctx = true ->
-  fres_den (find_chain tb ctx ch) = Some (denote tb ctx ch).
+  found_den (find_chain tb ctx ch) = denote tb ctx ch.
 Proof.
   intros Htb. unfold tb_ok in Htb. apply andb_true_iff in Htb as [_ Hty].
   assert (Hctx : forall t c, type_ctx tb t = Some c -> labels_ok c = true).
@@ -348,7 +363,7 @@ Proof.
   - destruct (assoc_get x ctx) as [e|] eqn:Ex; [|reflexivity].
     pose proof (assoc_get_in x ctx e Ex) as Hin. rewrite forallb_forall in Hf. specialize (Hf _ Hin). cbn [snd] in Hf.
     unfold type_ctx in *.
-    destruct e as [id t ht|id|t pt|t]; cbn [ent_flags_ok] in Hf; subst; try reflexivity;
+    destruct e as [id t|id|t pt|t]; cbn [ent_flags_ok] in Hf; subst; try reflexivity;
       (destruct (assoc_get t (st_types tb)) as [c|] eqn:Et; [|reflexivity]; apply IH; now apply (Hctx t)).
 Qed.
 
@@ -362,21 +377,40 @@ Definition den_names (tb : symtab) (ch : chain) : list str :=
   end.
 
 Lemma resolve_one_den tb ch : tb_ok tb = true ->
-  resolve_one tb ch = Some (match den_names tb ch with [] => None | n :: _ => Some n end).
+  resolve_one tb ch = match den_names tb ch with [] => None | n :: _ => Some n end.
 Proof.
   intros Htb. pose proof Htb as Htb'. unfold tb_ok in Htb'. apply andb_true_iff in Htb' as [Hs _].
-  pose proof (find_denote tb Htb ch (st_scope tb) Hs) as H. unfold resolve_one, den_names.
-  destruct (find_chain tb (st_scope tb) ch) as [e| |]; cbn [fres_den] in H; [| |discriminate];
-    injection H as <-; [destruct e; reflexivity|reflexivity].
+  pose proof (find_denote tb Htb ch (st_scope tb) Hs) as H. unfold resolve_one, den_names. rewrite <- H.
+  destruct (find_chain tb (st_scope tb) ch) as [e|]; [destruct e; reflexivity|reflexivity].
 Qed.
 
-Lemma resolve_calls_den tb calls : tb_ok tb = true -> resolve_calls tb calls = Some (flat_map (den_names tb) calls).
+Lemma resolve_loop_in tb calls : forall acc p,
+  In p (resolve_loop tb calls acc) <-> In p acc \/ exists ch, In ch calls /\ resolve_one tb ch = Some p.
 Proof.
-  intros Htb. induction calls as [|ch calls IH]; [reflexivity|]. cbn [resolve_calls flat_map].
-  rewrite (resolve_one_den tb ch Htb), IH. unfold den_names.
-  destruct (denote tb (st_scope tb) ch); reflexivity.
+  induction calls as [|c calls IH]; intros acc p; cbn [resolve_loop].
+  - split; [now left|intros [H|(ch & [] & _)]; exact H].
+  - destruct (resolve_one tb c) as [n|] eqn:E.
+    + destruct (str_in n acc) eqn:Ea.
+      * rewrite IH. split.
+        -- intros [H|(ch & Hin & Hr)]; [now left|right; exists ch; split; [now right|exact Hr]].
+        -- intros [H|(ch & [<-|Hin] & Hr)]; [now left| |right; eauto].
+           left. rewrite E in Hr. injection Hr as <-. now apply str_in_In.
+      * rewrite IH, in_app_iff. split.
+        -- intros [[H|[<-|[]]]|(ch & Hin & Hr)]; [now left|right; exists c; split; [now left|exact E]|right; exists ch; split; [now right|exact Hr]].
+        -- intros [H|(ch & [<-|Hin] & Hr)]; [left; now left| |right; eauto].
+           left. right. rewrite E in Hr. injection Hr as <-. now left.
+    + rewrite IH. split.
+      * intros [H|(ch & Hin & Hr)]; [now left|right; exists ch; split; [now right|exact Hr]].
+      * intros [H|(ch & [<-|Hin] & Hr)]; [now left|congruence|right; eauto].
 Qed.
 
+Lemma resolve_loop_nodup tb calls : forall acc, NoDup acc -> NoDup (resolve_loop tb calls acc).
+Proof.
+  induction calls as [|c calls IH]; intros acc H; cbn [resolve_loop]; [exact H|].
+  destruct (resolve_one tb c) as [n|]; [|now apply IH].
+  destruct (str_in n acc) eqn:Ea; [now apply IH|]. apply IH. apply nodup_snoc; [exact H|].
+  intros Hin. apply str_in_In in Hin. congruence.
+Qed.
 
 Lemma lower_keywords : forall k, In k grammar_keywords -> lower k = k.
 Proof.
@@ -509,46 +543,31 @@ Proof.
   destruct st as [lab sp f|lab d|lab sp c d|sp pairs| | |]; try discriminate; cbn [stmt_refs].
   - unfold stmt_chains in H. destruct (Hgen _ H) as [Hk|Hr]; [now left|right].
     cbn [stmt_segs] in Hr. now rewrite lab_segs_refs in Hr.
-  - destruct lab as [l|].
-    + unfold stmt_chains in H. destruct (Hgen _ H) as [Hk|Hr]; [now left|right].
-      cbn [stmt_segs lab_segs app flat_map seg_refs refs_e] in Hr. rewrite app_nil_r in Hr. now apply Hd.
-    + unfold stmt_chains in H. destruct H as [<-|H]; [right; now left|].
-      assert (H' : In ch (flat_map seg_heads0 (stmt_segs (SCall None d)) ++
-                          level_heads (flat_map subs_seg (stmt_segs (SCall None d))) (S (length (render_stmt (SCall None d))))))
-        by (apply in_app_iff; now right).
-      destruct (Hgen _ H') as [Hk|Hr]; [now left|right].
-      cbn [stmt_segs lab_segs app flat_map seg_refs refs_e] in Hr. rewrite app_nil_r in Hr. now apply Hd.
-  - destruct lab as [l|].
-    + unfold stmt_chains in H. destruct (Hgen _ H) as [Hk|Hr]; [now left|right].
-      cbn [stmt_segs lab_segs app flat_map seg_refs refs_e] in Hr. rewrite app_nil_r in Hr.
-      apply in_app_iff in Hr as [Hr|Hr]; apply in_app_iff; [now left|right; now apply Hd].
-    + unfold stmt_chains in H. destruct H as [<-|H]; [right; apply in_app_iff; right; now left|].
-      assert (H' : In ch (flat_map seg_heads0 (stmt_segs (SIfCall None sp c d)) ++
-                          level_heads (flat_map subs_seg (stmt_segs (SIfCall None sp c d))) (S (length (render_stmt (SIfCall None sp c d))))))
-        by (apply in_app_iff; now right).
-      destruct (Hgen _ H') as [Hk|Hr]; [now left|right].
-      cbn [stmt_segs lab_segs app flat_map seg_refs refs_e] in Hr. rewrite app_nil_r in Hr.
-      apply in_app_iff in Hr as [Hr|Hr]; apply in_app_iff; [now left|right; now apply Hd].
+  - unfold stmt_chains in H. destruct H as [<-|H]; [right; now left|].
+    assert (H' : In ch (flat_map seg_heads0 (stmt_segs (SCall lab d)) ++
+                        level_heads (flat_map subs_seg (stmt_segs (SCall lab d))) (S (length (render_stmt (SCall lab d))))))
+      by (apply in_app_iff; now right).
+    destruct (Hgen _ H') as [Hk|Hr]; [now left|right].
+    cbn [stmt_segs] in Hr. rewrite lab_segs_refs in Hr.
+    cbn [flat_map seg_refs refs_e app] in Hr. rewrite app_nil_r in Hr. now apply Hd.
+  - unfold stmt_chains in H. destruct H as [<-|H]; [right; apply in_app_iff; right; now left|].
+    assert (H' : In ch (flat_map seg_heads0 (stmt_segs (SIfCall lab sp c d)) ++
+                        level_heads (flat_map subs_seg (stmt_segs (SIfCall lab sp c d))) (S (length (render_stmt (SIfCall lab sp c d))))))
+      by (apply in_app_iff; now right).
+    destruct (Hgen _ H') as [Hk|Hr]; [now left|right].
+    cbn [stmt_segs] in Hr. rewrite lab_segs_refs in Hr.
+    cbn [flat_map seg_refs refs_e app] in Hr. rewrite app_nil_r in Hr.
+    apply in_app_iff in Hr as [Hr|Hr]; apply in_app_iff; [now left|right; now apply Hd].
 Qed.
-
-Lemma head_chain_full d : last_has_args d = true -> d_head_chain d = Some (names_d d).
-Proof.
-  induction d as [x|x a|x r IH|x a r IH]; cbn [last_has_args d_head_chain names_d]; intros H.
-  - discriminate.
-  - reflexivity.
-  - change (last_has_args r = true) in H. now rewrite (IH H).
-  - change (last_has_args r = true) in H. now rewrite (IH H).
-Qed.
-
 
 Lemma wf_stmt_all st : seg_stmt st = true -> wf_stmt st = true -> forallb wf_seg (stmt_segs st) = true.
 Proof. intros Hs Hwf. apply wf_segs_all. exact (proj1 (wf_stmt_segs st Hs Hwf)). Qed.
 
 (* (2) per statement *)
-Lemma stmt_bridge2 st ch : seg_stmt_noassoc st = true -> wf_stmt st = true -> lab_call_ok st = true ->
+Lemma stmt_bridge2 st ch : seg_stmt_noassoc st = true -> wf_stmt st = true ->
   In ch (stmt_refs st) -> In ch (stmt_inner st) \/ In ch (stmt_chains st).
 Proof.
-  intros Hs Hwf Hlab H.
+  intros Hs Hwf H.
   assert (Hseg : seg_stmt st = true) by (destruct st; try discriminate; reflexivity).
   pose proof (wf_stmt_all st Hseg Hwf) as Hall.
   assert (Hrender : render_stmt st = render_segs (stmt_segs st)) by (destruct st; try discriminate; reflexivity).
@@ -568,34 +587,23 @@ Proof.
     destruct (segs_bridge2 _ ch Hall H) as [Hi|Hc]; [now left|right]. unfold stmt_chains. now rewrite Hrender.
   - assert (Hsub : forall a, In a (subs_d d) -> In a (flat_map subs_seg (stmt_segs (SCall lab d)))).
     { intros a Ha. cbn [stmt_segs]. rewrite flat_map_app. apply in_app_iff. right. cbn [flat_map subs_seg subs_e]. now rewrite app_nil_r. }
-    destruct H as [<-|H].
-    + right. destruct lab as [l|]; unfold stmt_chains; [|now left].
-      apply in_app_iff. left. cbn [stmt_segs lab_segs app flat_map seg_heads0 e_heads0]. rewrite app_nil_r.
-      apply d_heads0_in. now apply head_chain_full.
-    + apply in_app_iff in H as [H|H]; [left; apply in_app_iff; now left|].
-      destruct lab as [l|]; unfold stmt_chains.
-      * destruct (Hargs d _ (le_n _) Hsub H) as [Hi|Hl]; [left; apply in_app_iff; now right|right; apply in_app_iff; now right].
-      * destruct (Hargs d (S (length (render_stmt (SCall None d)))) (le_S _ _ (le_n _)) Hsub H) as [Hi|Hl];
-          [left; apply in_app_iff; now right|right; now right].
+    destruct H as [<-|H]; [right; unfold stmt_chains; now left|].
+    apply in_app_iff in H as [H|H]; [left; apply in_app_iff; now left|].
+    unfold stmt_chains.
+    destruct (Hargs d (S (length (render_stmt (SCall lab d)))) (le_S _ _ (le_n _)) Hsub H) as [Hi|Hl];
+      [left; apply in_app_iff; now right|right; now right].
   - assert (Hsub : forall a, In a (subs_d d) -> In a (flat_map subs_seg (stmt_segs (SIfCall lab sp c d)))).
     { intros a Ha. cbn [stmt_segs]. rewrite flat_map_app. apply in_app_iff. right. cbn [flat_map subs_seg subs_e]. rewrite app_nil_r. now right. }
     assert (Hc : In c (flat_map subs_seg (stmt_segs (SIfCall lab sp c d)))).
     { cbn [stmt_segs]. rewrite flat_map_app. apply in_app_iff. right. cbn [flat_map subs_seg]. now left. }
     apply in_app_iff in H as [H|H].
     + destruct (proj1 refs_heads c ch H) as [Hi|(k & Hk)]; [left; apply in_app_iff; now left|right].
-      destruct lab as [l|]; unfold stmt_chains.
-      * apply in_app_iff. right. exact (Hlevel k c _ (le_n _) Hc Hk).
-      * right. exact (Hlevel k c _ (le_S _ _ (le_n _)) Hc Hk).
-    + destruct H as [<-|H].
-      * right. destruct lab as [l|]; unfold stmt_chains; [|now left].
-        apply in_app_iff. left. cbn [stmt_segs lab_segs app flat_map seg_heads0 e_heads0]. rewrite app_nil_r.
-        right. apply d_heads0_in. now apply head_chain_full.
-      * apply in_app_iff in H as [H|H]; [left; apply in_app_iff; right; apply in_app_iff; now left|].
-        destruct lab as [l|]; unfold stmt_chains.
-        -- destruct (Hargs d _ (le_n _) Hsub H) as [Hi|Hl];
-             [left; apply in_app_iff; right; apply in_app_iff; now right|right; apply in_app_iff; now right].
-        -- destruct (Hargs d (S (length (render_stmt (SIfCall None sp c d)))) (le_S _ _ (le_n _)) Hsub H) as [Hi|Hl];
-             [left; apply in_app_iff; right; apply in_app_iff; now right|right; now right].
+      unfold stmt_chains. right. exact (Hlevel k c _ (le_S _ _ (le_n _)) Hc Hk).
+    + destruct H as [<-|H]; [right; unfold stmt_chains; now left|].
+      apply in_app_iff in H as [H|H]; [left; apply in_app_iff; right; apply in_app_iff; now left|].
+      unfold stmt_chains.
+      destruct (Hargs d (S (length (render_stmt (SIfCall lab sp c d)))) (le_S _ _ (le_n _)) Hsub H) as [Hi|Hl];
+        [left; apply in_app_iff; right; apply in_app_iff; now right|right; now right].
 Qed.
 
 (* ------------------------------------------------------------------ C08_exact *)
@@ -630,23 +638,31 @@ Proof.
   rewrite E. destruct st; try discriminate; now rewrite (IH H2).
 Qed.
 
+Lemma goto_segs_all e : wf_segs (goto_segs e) = true -> forallb wf_seg (goto_segs e) = true.
+Proof. apply wf_segs_all. Qed.
 
 Lemma unit_chains_refs st ch : wf_stmt st = true -> step_ok st = true -> In ch (unit_chains st) ->
   keep ch = false \/ In ch (stmt_refs st).
 Proof.
   intros Hwf Hs H. unfold unit_chains in H.
-  destruct st as [lab sp f|lab d|lab sp c d|sp pairs| | |]; cbn [seg_stmt] in H; try contradiction; try discriminate;
-    now apply stmt_bridge1.
+  destruct st as [lab sp f|lab d|lab sp c d|sp pairs| | |labels e]; cbn [seg_stmt] in H; try contradiction; try discriminate;
+    try now apply stmt_bridge1.
+  unfold stmt_chains in H. cbn [stmt_refs].
+  destruct (segs_bridge1 (goto_segs e) _ ch (fun kw (Hk : In kw (flat_map seg_kw (goto_segs e))) => match Hk with end) H) as [Hk|Hr];
+    [now left|right]. cbn [goto_segs flat_map seg_refs app] in Hr. now rewrite app_nil_r in Hr.
 Qed.
 
-Lemma stmt_refs_chains st ch : wf_stmt st = true -> step_ok st = true -> lab_call_ok st = true ->
-  match st with SGoto _ e => is_nil (refs_e e) = true | _ => True end ->
+Lemma stmt_refs_chains st ch : wf_stmt st = true -> step_ok st = true ->
   In ch (stmt_refs st) -> In ch (stmt_inner st) \/ In ch (unit_chains st).
 Proof.
-  intros Hwf Hs Hl Hg H. unfold unit_chains.
+  intros Hwf Hs H. unfold unit_chains.
   destruct st as [lab sp f|lab d|lab sp c d|sp pairs| | |labels e]; cbn [seg_stmt stmt_refs] in *; try contradiction; try discriminate;
     try now apply stmt_bridge2.
-  destruct (refs_e e); [contradiction|discriminate].
+  cbn [wf_stmt] in Hwf. apply andb_true_iff in Hwf as [_ Hsegs].
+  assert (H' : In ch (flat_map seg_refs (goto_segs e))) by (cbn [goto_segs flat_map seg_refs app]; now rewrite app_nil_r).
+  destruct (segs_bridge2 (goto_segs e) ch (goto_segs_all e Hsegs) H') as [Hi|Hc].
+  - left. cbn [stmt_inner]. cbn [goto_segs flat_map seg_inner app] in Hi. now rewrite app_nil_r in Hi.
+  - right. exact Hc.
 Qed.
 
 Lemma classify0_keep tb ch : keep ch = true -> classify0 tb ch = den_names tb ch.
@@ -656,20 +672,19 @@ Qed.
 
 Theorem exact tb ss srcs :
   map mask_quotes srcs = map render_stmt ss -> resolvable tb ss = true ->
-  exists l, recorded tb srcs = Some l /\ forall p, In p l <-> In p (calls_of tb ss).
+  exists l, recorded tb srcs = Some l /\ NoDup l /\ forall p, In p l <-> In p (calls_of tb ss).
 Proof.
   intros Hsrc Hres. unfold resolvable in Hres.
   repeat match goal with H : _ && _ = true |- _ => apply andb_true_iff in H as [H ?] end.
-  rename H into Hinner, H0 into Hsame, H1 into Hintr, H2 into Hgoto, H3 into Hlab, H4 into Htb, H5 into Hstep, H6 into Hplain.
+  rename H into Hinner, H0 into Hintr, H1 into Htb, H2 into Hstep, H3 into Hplain.
   rename Hres into Hwf.
-  apply negb_true_iff in Hsame, Hintr, Hgoto.
+  apply negb_true_iff in Hintr.
   assert (Hfree : forallb assoc_free_stmt ss = true).
   { rewrite forallb_forall in Hstep |- *. intros st Hin. apply step_ok_free. now apply Hstep. }
   unfold recorded, unit_raw_calls. rewrite run_stmts_lines, Hsrc, (run_unit ss [] Hwf Hplain Hstep).
-  rewrite (resolve_calls_den tb _ Htb). eexists. split; [reflexivity|].
+  eexists. split; [reflexivity|]. split; [apply resolve_loop_nodup; constructor|].
   rewrite (calls_of_free tb ss Hfree).
   set (chains := flat_map unit_chains ss). set (refs := flat_map stmt_refs ss).
-  (* the two bridges on the whole unit *)
   assert (B1 : forall ch, In ch chains -> keep ch = true -> In ch refs).
   { intros ch Hin Hk. apply in_flat_map in Hin as (st & Hst & Hch).
     rewrite forallb_forall in Hwf, Hstep.
@@ -677,28 +692,12 @@ Proof.
     apply in_flat_map. eauto. }
   assert (B2 : forall ch, In ch refs -> classify0 tb ch <> [] -> In ch chains).
   { intros ch Hin Hne. apply in_flat_map in Hin as (st & Hst & Hch).
-    rewrite forallb_forall in Hwf, Hstep, Hlab.
-    assert (Hg : match st with SGoto _ e => is_nil (refs_e e) = true | _ => True end).
-    { destruct st; try exact I. unfold region_goto_expr in Hgoto.
-      destruct (is_nil (refs_e e)) eqn:En; [reflexivity|]. exfalso.
-      assert (Ht : existsb (fun st => match st with SGoto _ e => negb (is_nil (refs_e e)) | _ => false end) ss = true).
-      { apply existsb_exists. eexists. split; [exact Hst|]. cbn. now rewrite En. }
-      congruence. }
-    destruct (stmt_refs_chains st ch (Hwf st Hst) (Hstep st Hst) (Hlab st Hst) Hg Hch) as [Hi|Hc].
+    rewrite forallb_forall in Hwf, Hstep.
+    destruct (stmt_refs_chains st ch (Hwf st Hst) (Hstep st Hst) Hch) as [Hi|Hc].
     - exfalso. apply Hne. rewrite forallb_forall in Hinner.
       assert (Hin' : In ch (flat_map stmt_inner ss)) by (apply in_flat_map; eauto).
       specialize (Hinner ch Hin'). destruct (classify0 tb ch); [reflexivity|discriminate].
     - apply in_flat_map. eauto. }
-  (* what a kept reference contributes does not depend on which chain with that last name was kept *)
-  assert (R3 : forall a b, In a refs -> In b refs -> last_of a = last_of b -> classify0 tb a = classify0 tb b).
-  { intros a b Ha Hb El. unfold region_same_last in Hsame. rewrite (some_refs_free ss Hfree) in Hsame. fold refs in Hsame.
-    destruct (list_eqb str_eqb (classify0 tb a) (classify0 tb b)) eqn:E.
-    - apply (list_eqb_eq str_eqb str_eqb_eq). exact E.
-    - exfalso. assert (Ht : existsb (fun a => existsb (fun b => str_eqb (last_of a) (last_of b)
-                                      && negb (list_eqb str_eqb (classify0 tb a) (classify0 tb b))) refs) refs = true).
-      { apply existsb_exists. exists a. split; [exact Ha|]. apply existsb_exists. exists b. split; [exact Hb|].
-        rewrite El, str_eqb_refl, E. reflexivity. }
-      congruence. }
   assert (R2 : forall ch, In ch refs -> classify0 tb ch <> [] -> keep ch = true).
   { intros ch Hin Hne. unfold keep. destruct (str_in (last_of ch) INTRINSICS) eqn:Ei; [|reflexivity]. exfalso.
     unfold classify0 in Hne. rewrite Ei in Hne.
@@ -707,14 +706,16 @@ Proof.
     assert (Ht : existsb (fun ch => is_proc_den (denote tb (st_scope tb) ch) && str_in (last_of ch) INTRINSICS) refs = true).
     { apply existsb_exists. exists ch. split; [exact Hin|]. now rewrite Ed, Ei. }
     congruence. }
-  intros p. rewrite !in_flat_map. split.
-  - intros (ch & Hin & Hp). apply append_calls_in in Hin as [[]|[Hin Hk]].
-    exists ch. split; [now apply B1|]. now rewrite (classify0_keep tb ch Hk).
-  - intros (ch & Hin & Hp).
+  intros p. unfold resolve_calls. rewrite resolve_loop_in, in_flat_map. split.
+  - intros [[]|(ch & Hin & Hr)]. apply append_calls_in in Hin as [[]|[Hin Hk]].
+    exists ch. split; [now apply B1|]. rewrite (classify0_keep tb ch Hk).
+    rewrite (resolve_one_den tb ch Htb) in Hr. destruct (den_names tb ch) as [|n l] eqn:E; [discriminate|].
+    injection Hr as <-. now left.
+  - intros (ch & Hin & Hp). right.
     assert (Hne : classify0 tb ch <> []) by (intros E; rewrite E in Hp; contradiction).
     pose proof (R2 ch Hin Hne) as Hk. pose proof (B2 ch Hin Hne) as Hc.
-    destruct (append_calls_cover [] chains ch Hc Hk) as (ch' & Hin' & El).
-    exists ch'. split; [exact Hin'|].
-    apply append_calls_in in Hin' as Hin''. destruct Hin'' as [[]|[Hc' Hk']].
-    rewrite <- (classify0_keep tb ch' Hk'). rewrite (R3 ch' ch (B1 ch' Hc' Hk') Hin El). exact Hp.
+    exists ch. split; [now apply append_calls_cover|].
+    rewrite (resolve_one_den tb ch Htb). rewrite (classify0_keep tb ch Hk) in Hp.
+    unfold den_names in *. destruct (denote tb (st_scope tb) ch); cbn in Hp |- *; try contradiction;
+      destruct Hp as [<-|[]]; reflexivity.
 Qed.
